@@ -127,7 +127,10 @@ def forall_int(lo, hi, body_fn, trig_fn=None, name="j"):
         t = trig_fn(j)
         pats = [t] if not isinstance(t, (list, tuple)) else list(t)
     if pats:
-        return z3.ForAll([j], f, patterns=pats)
+        try:
+            return z3.ForAll([j], f, patterns=pats)
+        except z3.Z3Exception:
+            pass  # e.g. an if-then-else inside the trigger term: let the solver choose
     return z3.ForAll([j], f)
 
 
